@@ -443,3 +443,44 @@ def to_rec(t):
         cache[k] = r
         return r
     return go(t)
+
+
+def eval_closed_term(t, fuel=400):
+    """Normalise a closed spec term: z3's rewriter does not always unfold a recursive definition with a large body, so
+    applications of the `!rec` twins whose principal argument is constructor-headed are unfolded here, outermost
+    simplification first (dead branches disappear before their calls are looked at), until none is left."""
+    t = z3.simplify(to_rec(t))
+    for _ in range(fuel):
+        changed = [False]
+        cache = {}
+
+        def go(x):
+            k = x.get_id()
+            if k in cache:
+                return cache[k]
+            r = x
+            if z3.is_app(x) and x.num_args() > 0:
+                d = x.decl()
+                nm = d.name()
+                args = [x.arg(i) for i in range(x.num_args())]
+                df = _REGISTRY.get(nm[:-4]) if nm.endswith("!rec") else None
+                if df is not None and _headed(args[df.principal]) and not changed[0]:
+                    old = _MODE["rec"]
+                    _MODE["rec"] = True
+                    try:
+                        body = df.body_fn(*args)
+                    finally:
+                        _MODE["rec"] = old
+                    r = to_rec(body)
+                    changed[0] = True
+                else:
+                    new = [go(a) for a in args]
+                    if any(not a.eq(b) for a, b in zip(args, new)):
+                        r = d(*new)
+            cache[k] = r
+            return r
+        t2 = go(t)
+        if not changed[0]:
+            return t
+        t = z3.simplify(t2)
+    return t
